@@ -608,7 +608,11 @@ func (f *lambdaCallable) wrapVariadicArgs(argv []reflect.Value) []reflect.Value 
 	vars := reflect.MakeSlice(typeInterfaceSlice, n, n)
 
 	for i := 0; i < n; i++ {
-		vars.Index(i).Set(argv[paramCount-1+i])
+		// An undefined argument leaves its slot empty (null):
+		// Set panics on the zero Value.
+		if arg := argv[paramCount-1+i]; arg.IsValid() {
+			vars.Index(i).Set(arg)
+		}
 	}
 
 	return append(argv[:paramCount-1], vars)
